@@ -7,6 +7,7 @@ import (
 	"os"
 	"os/exec"
 	"path/filepath"
+	"runtime"
 	"strconv"
 	"strings"
 	"time"
@@ -86,7 +87,8 @@ type crashPoint struct {
 	op   int
 	k    int
 	post bool
-	sys  int // >0: kill at the sys-th file syscall (strace), op/k unused
+	sys  int    // >0: kill at the sys-th invocation of file syscall sysName (strace), op/k unused
+	name string // pwrite64 | fdatasync
 }
 
 // reference run on the simulated disk: model states and per-op call counts.
@@ -127,7 +129,7 @@ func runCrashProc(rf *RunFile) *RunOutcome {
 	if p := rf.Cfg["point"]; p != "" {
 		var cp crashPoint
 		var post int
-		fmt.Sscanf(p, "%d/%d/%d/%d", &cp.op, &cp.k, &post, &cp.sys)
+		fmt.Sscanf(p, "%d/%d/%d/%d/%s", &cp.op, &cp.k, &post, &cp.sys, &cp.name)
 		cp.post = post == 1
 		points = []crashPoint{cp}
 	} else {
@@ -165,15 +167,21 @@ func runCrashProc(rf *RunFile) *RunOutcome {
 		}
 		points = append(points, crashPoint{op: -1}) // no crash: clean completion, reopen must give S_n
 		if rf.Cfg["strace"] == "1" {
-			total := countFileSyscalls(exe, rf)
-			if total > 0 {
+			counts := countFileSyscalls(exe, rf)
+			if counts["pwrite64"] > 0 && counts["fdatasync"] > 0 {
 				out.Stats.Probes["strace-available"]++
-				n := 6
 				if maxPoints == 0 {
-					n = total
-				}
-				for i := 0; i < n && i < total; i++ {
-					points = append(points, crashPoint{op: -1, sys: 1 + pr.Intn(total)})
+					// every file-syscall position of the history
+					for _, name := range []string{"pwrite64", "fdatasync"} {
+						for i := 1; i <= counts[name]; i++ {
+							points = append(points, crashPoint{op: -1, sys: i, name: name})
+						}
+					}
+				} else {
+					for i := 0; i < 6; i++ {
+						name := []string{"pwrite64", "fdatasync"}[pr.Intn(2)]
+						points = append(points, crashPoint{op: -1, sys: 1 + pr.Intn(counts[name]), name: name})
+					}
 				}
 			} else {
 				out.Stats.Probes["strace-unavailable"]++
@@ -193,7 +201,7 @@ func runCrashProc(rf *RunFile) *RunOutcome {
 			if cp.post {
 				post = 1
 			}
-			rf.Cfg["point"] = fmt.Sprintf("%d/%d/%d/%d", cp.op, cp.k, post, cp.sys)
+			rf.Cfg["point"] = fmt.Sprintf("%d/%d/%d/%d/%s", cp.op, cp.k, post, cp.sys, cp.name)
 			out.V = v
 			return out
 		}
@@ -219,8 +227,10 @@ func spawnCrashWorker(exe string, rf *RunFile, dataDir string, cp crashPoint, st
 	var cmd *exec.Cmd
 	if straceN > 0 {
 		file := filepath.Join(dataDir, "data.db")
-		sargs := []string{"-f", "-o", "/dev/null", "-P", file, "-e", "trace=pwrite64,fdatasync,ftruncate,fallocate",
-			"-e", fmt.Sprintf("inject=pwrite64,fdatasync,ftruncate,fallocate:signal=SIGKILL:when=%d", straceN), exe}
+		// strace counts invocations per traced thread: the worker locks its only
+		// working goroutine to one OS thread, so this is the N-th invocation of the process
+		sargs := []string{"-f", "-o", "/dev/null", "-P", file, "-e", "trace=" + cp.name,
+			"-e", fmt.Sprintf("inject=%s:signal=SIGKILL:when=%d", cp.name, straceN), exe}
 		cmd = exec.Command("strace", append(sargs, args...)...)
 	} else {
 		cmd = exec.Command(exe, args...)
@@ -270,13 +280,13 @@ func spawnCrashWorker(exe string, rf *RunFile, dataDir string, cp crashPoint, st
 }
 
 // countFileSyscalls runs the history to completion under strace and counts the traced calls.
-func countFileSyscalls(exe string, rf *RunFile) int {
+func countFileSyscalls(exe string, rf *RunFile) map[string]int {
 	if _, err := exec.LookPath("strace"); err != nil {
-		return 0
+		return nil
 	}
 	parent, err := scratchDir()
 	if err != nil {
-		return 0
+		return nil
 	}
 	defer os.RemoveAll(parent)
 	dataDir := filepath.Join(parent, "db")
@@ -290,16 +300,18 @@ func countFileSyscalls(exe string, rf *RunFile) int {
 		exe, "crashworker", "--file", runPath, "--dir", dataDir, "--op", "-1", "--k", "0")
 	cmd.Env = append(os.Environ(), "GOMAXPROCS=2")
 	if err := cmd.Run(); err != nil {
-		return 0
+		return nil
 	}
 	b, err := os.ReadFile(logPath)
 	if err != nil {
-		return 0
+		return nil
 	}
-	n := 0
+	n := map[string]int{}
 	for _, l := range strings.Split(string(b), "\n") {
-		if strings.Contains(l, "pwrite64(") || strings.Contains(l, "fdatasync(") || strings.Contains(l, "ftruncate(") || strings.Contains(l, "fallocate(") {
-			n++
+		for _, name := range []string{"pwrite64", "fdatasync", "ftruncate", "fallocate"} {
+			if strings.Contains(l, name+"(") {
+				n[name]++
+			}
 		}
 	}
 	return n
@@ -404,6 +416,9 @@ func CrashWorkerMain(args []string) int {
 	k := fs.Int("k", 0, "")
 	post := fs.Bool("post", false, "")
 	fs.Parse(args)
+	// every file syscall of the history is issued from this goroutine: pin it to
+	// one OS thread so that "the N-th pwrite64" means the same thing in every execution
+	runtime.LockOSThread()
 	rf, err := LoadRunFile(*file)
 	if err != nil {
 		fmt.Println("WORKER-ERROR", err)
